@@ -88,18 +88,23 @@ CHECKS["C04"] = dict(
 CHECKS["C13"] = dict(
     level="exploration",
     level_text=("online reference-model monitor: every Sample return value is compared with an executable model of the documented share driven by "
-                "the same scripted TimestampFunc clock (bounded-exhaustive over all clock histories of length <=6/7 on a 7-value alphabet x Burst x "
-                "Period x 5 NextSampler compositions, random non-monotonic histories beyond), LevelSampler over all 256 levels x 32 configurations, "
-                "samplers behind a Logger (gated events must not consume budget, DisableSampling), and BasicSampler under real goroutines: exact "
-                "ceil(k/N) accounting, porcupine linearizability of short histories against the counter model, and the race detector."),
-    technique="runtime monitoring: reference sampler models compared call by call; porcupine + race detector for concurrent BasicSampler",
+                "the same scripted TimestampFunc clock (bounded-exhaustive over all clock histories of length <=6/8 on a 7-value alphabet and of length "
+                "<=5/7 on an 8-value alphabet of readings before, at and around the Unix epoch, x Burst x Period x 5 NextSampler compositions; random "
+                "non-monotonic histories beyond, a quarter of them before the epoch), LevelSampler over all 256 levels x 32 configurations; random "
+                "sampler compositions (Basic / Burst / Level / recording leaves, depth <= 3) behind a Logger driven through every entry point "
+                "(Trace..Error, Log, Print, Write, Err, WithLevel): the writer sees exactly the admitted events, the recording leaves must have been "
+                "consulted exactly as in the model and with the EVENT's level, gated events and loggers whose sampler was removed consult nothing, "
+                "children derived from the sampled logger share its budget, DisableSampling admits everything; BasicSampler under real goroutines: "
+                "exact ceil(k/N) accounting, porcupine linearizability of short histories against the counter model, and the race detector."),
+    technique="runtime monitoring: reference sampler models compared call by call (return values and consultation logs); porcupine + race detector for concurrent BasicSampler",
     stages=lambda tier: [dict(variant="vh", cmd="c13", shards=16, timeout=3000),
                          dict(variant="vh", cmd="c13-conc", shards=4, timeout=3000),
                          dict(variant="vh-race", cmd="c13-conc", shards=4, timeout=3000, race=True)],
-    rule=("one case = one (sampler parameters, clock history) pair or one concurrent run; non-trivial = Burst>0 and Period>0 for Burst histories, "
-          "all others; distinct by case index / content hash"),
-    assumptions=["clock readings >= 1 ns and sums below MaxInt64; uint32 counter wrap-around is not driven"],
-    require=dict(sample_calls=100000, porcupine_ok=100),
+    rule=("one case = one (sampler parameters, clock history) pair, one composition behind a logger, or one concurrent run; non-trivial = Burst>0 and "
+          "Period>0 for Burst histories, all others; distinct by case index / content hash"),
+    assumptions=["clock reading + Period stays below MaxInt64 nanoseconds (the clock's own range); uint32 counter wrap-around is not driven",
+                 "DisableSampling(true) is only switched on for the tail of a history: whether a disabled sampler is still consulted is not regulated"],
+    require=dict(sample_calls=100000, porcupine_ok=100, logger_sampling_events_with_level_observed=1000),
 )
 
 CHECKS["C14"] = dict(
